@@ -159,8 +159,8 @@ def run_case(case: dict, st=None) -> Tuple[List[dict], Dict[str, Any]]:
         viol("time-constants", "time constants of the fitted circuit differ from eq. 12 (tau_min = 1/(w_max F_ext), tau_max = F_ext/w_min, log spacing)",
              f"got={got['taus'][:3]}... expected={list(taus)[:3]}...")
         return viols, info
-    tc = np.array(r.get_time_constants())
-    if len(tc) != len(taus) or not np.allclose(tc, taus, rtol=1e-10, atol=0):
+    tc = np.array(r.get_time_constants())   # documented as the time constants used; returned in ascending order
+    if len(tc) != len(taus) or not np.allclose(np.sort(tc), np.sort(np.array(taus)), rtol=1e-10, atol=0):
         viol("time-constants-getter", "result.get_time_constants() differs from the reference time constants")
     cond = design_condition(f, taus, case, Z, np)
     info["cond"] = cond
@@ -280,6 +280,12 @@ def cases(thorough: bool) -> List[dict]:
                 for entry in ("evaluate", "exploratory"):
                     for lfe in (-0.5, 0.3):
                         out.append(dict(base, lfe=lfe, entry=entry))
+    # spectra narrower than twice the contraction: the range of time constants collapses / turns around (tau_min >= tau_max)
+    for test in KK.LINEAR_TESTS:
+        for adm in (False, True):
+            for C, L in (((False, True),) if test.endswith("-inv") else ((False, False), (False, True))):
+                for dec, lfe in ((1, -1.0), (1, -0.8), (2, -0.8), (1, -0.3)):   # not (1, -0.5) / (2, -1.0): all time constants equal, singular by construction
+                    out.append({"test": test, "adm": adm, "C": C, "L": L, "ppd": 10, "fmax": 3, "dec": dec, "num_RC": 3, "lfe": lfe, "signs": "plus", "scale": 1.0})
     # the extension factor exactly on the limits of its documented range
     for test in KK.LINEAR_TESTS:
         for adm, C in itertools.product((False, True), (False, True)):
